@@ -7,6 +7,7 @@ package decimal
 import (
 	"fmt"
 	"io"
+	"math/big"
 	"strings"
 )
 
@@ -131,7 +132,31 @@ func (z *Decimal) scan(r io.ByteScanner, base int) (f *Decimal, b int, err error
 	}
 	// exp2 != 0
 
-	// // apply 2**exp2
+	// apply 2**exp2
+	//
+	// If the binary exponent is small enough for the result to possibly fit
+	// z.prec digits, it must be stored exactly (and is otherwise correctly
+	// rounded for free): multiply by the exact integer 2**exp2, or by
+	// 5**-exp2 followed by an exact scaling by 10**exp2, so that the product
+	// is rounded once. (Dividing by a rounded power of two, as below, stored
+	// 0x.7 with 24 fractional zeros as 0.437499999 at 9 digits.)
+	if lim := 5*(int64(len(z.mant))*_DW+int64(z.prec)) + 64; -lim <= exp2 && exp2 <= lim {
+		t := new(Decimal)
+		if exp2 > 0 {
+			t.SetInt(new(big.Int).Lsh(big.NewInt(1), uint(exp2)))
+			z.Mul(z, t)
+		} else {
+			t.SetInt(new(big.Int).Exp(big.NewInt(5), big.NewInt(-exp2), nil))
+			z.Mul(z, t)
+			acc := z.acc
+			z.SetMantExp(z, int(exp2))
+			if z.form == finite {
+				z.acc = acc
+			}
+		}
+		return
+	}
+
 	p := new(Decimal).SetPrec(z.Prec() + _DW) // use more bits for p -- TODO(db47h) what is the right number?
 	if exp2 < 0 {
 		z.Quo(z, p.pow2(uint64(-exp2)))
